@@ -14,7 +14,7 @@ import (
 func init() {
 	register("C02", Meta{
 		Explanation: "Structural necessary conditions of the attestation quorum: (signer-bonded) the function that resolves a message signer to a validator returns without error only on paths where the staking validator is non-nil and IsBonded() is true, and the value it returns is that validator's operator; the vote-record append is reachable only through the non-error result of that resolver and appends the resolved validator; (one-vote) the single append to ExternalEventVoteRecord.Votes is cut off from the entry by 'event nonce == last+1 or last == 0' with last the per-validator nonce of the same validator, and the per-validator nonce is stored with the event's nonce on every success path after it; (quorum-guard) the call that applies an event is guarded by votePower.GTE/GT(required) with required built from StakingKeeper.GetLastTotalPower by constants A,B with A/B >= 66/100 and votePower a loop-carried sum that adds exactly one GetLastValidatorPower result per vote; (votes-writers) the vote-record prefix is written only by the vote function, the tally function and InitGenesis.",
-		NotDecided: []string{">=66% as an arithmetic fact for every power vector (truncating 66*T/100 under-approximates by less than one power unit)", "powers changing between vote and tally (only: powers are read at tally time)", "behaviour of the staking module"},
+		NotDecided:  []string{">=66% as an arithmetic fact for every power vector (truncating 66*T/100 under-approximates by less than one power unit)", "powers changing between vote and tally (only: powers are read at tally time)", "behaviour of the staking module"},
 		Assumptions: commonAssumptions,
 	}, checkC02)
 }
